@@ -158,6 +158,11 @@ let () = iter_lines (fun line ->
         Printf.sprintf "%d %d" (int_of_z v) (int_of_z n)
       | _ -> "ERR" in
     Printf.printf "I %s S %s\n" i s
+  | "brd" :: hex :: ops ->
+    (* the 64-bit window bit reader model on a script of operations (see Vp8lBitReader.br_run) *)
+    let data = if hex = "-" then [] else zbytes_of_hex hex in
+    let res = Vp8lBitReader.br_run (Stdlib.List.map z_of_string ops) (Vp8lBitReader.br_new data) in
+    Printf.printf "I %s\n" (String.concat "," (Stdlib.List.map (fun (v, e) -> Printf.sprintf "%s:%d" (string_of_z v) (if e then 1 else 0)) res))
   | ["p2d"; w; code] ->
     let r = string_of_z (Vp8lSpec.plane_to_dist (z_of_string w) (z_of_string code)) in
     Printf.printf "I %s S %s\n" r r
